@@ -63,7 +63,7 @@ SUFFIXES = ["none", "overwrite-all", "select-away-all", "drop-all"]
 def scope(tier: str) -> Dict[str, Any]:
     if tier == "quick":
         return {"max_rows": 3, "k_domain": [None, 1]}
-    return {"max_rows": 4, "k_domain": [None, 1, 2]}
+    return {"max_rows": 4, "k_domain": [None, 1]}
 
 
 # --------------------------------------------------------------------------------------------------
@@ -395,7 +395,8 @@ def bounded(rep: Report, tier: str, seed: int) -> None:
     rep.evaluations += sum(counts.values())
     n_nontrivial = sum(v for k, v in counts.items() if k.split(":")[1] in ("ok", "fail"))
     rep.nontrivial_keys |= set((PID, i) for i in range(n_nontrivial))
-    rep.violations.sort(key=lambda v: (len(v.replay["case"]["spec"]["steps"]), len(v.replay["case"]["data"]["d"]["x"]), v.key, repr(v.replay["case"])))
+    rep.violations.sort(key=lambda v: (len(v.replay["case"]["spec"]["steps"]), len(v.replay["case"]["data"]["d"]["x"]), v.key, len(v.replay["case"]["pipeline"]), repr(v.replay["case"])))
+    O.cap_unclassified(rep)
     wrap.require_evaluated(rep, sorted(set(CONTRACTS.values())))
     rep.extra["status_counts"] = dict(sorted(counts.items()))
     rep.extra["pipelines"] = len(pipelines())
